@@ -39,6 +39,8 @@ NO_BB = {"tx.ternary", "tx.miter", "tx.unroll", "tx.sensitization_transform", "t
          "tx.supergates", "props.influence", "props.avg_sensitivity", "props.sensitivity", "props.sensitize", "io.circuit_to_bench",
          "tx.subcircuit", "props.signal_probability"}
 NEED_BB = {"tx.sequential_unroll"}
+IGNORE_PINS = {"tx.strip_blackboxes", "tx.sequential_unroll"}
+IGNORE_CHOICES = [None, "clk", ["clk"], "qn", ["qn"], ["q"], "q", ["clk", "qn"], ["rst", "en", "qn"], ["clk", "rst", "en"], ["d"]]
 WRITERS = {"io.circuit_to_bench", "io.to_file", "io.circuit_to_verilog", "tx.syn", "tx.aig", "utils.visualize"}
 ESCAPED = {"io.circuit_to_verilog", "io.to_file", "tx.syn", "tx.aig", "utils.visualize"}
 SAT = {"props.influence", "props.avg_sensitivity", "props.sensitivity", "props.sensitize", "props.signal_probability",
@@ -51,7 +53,7 @@ BB_TYPES = {"ff": (["clk", "d"], ["q"]), "ffr": (["clk", "d", "rst"], ["q"]), "f
             "ff2": (["clk", "d"], ["q", "qn"])}
 
 
-def splice_bb(rng, d, inst, bbname):
+def splice_bb(rng, d, inst, bbname, p_unused=0.6):
     """put an instance of blackbox type `bbname` into the fan-out of a random node (dump level, result stays lint-clean)"""
     ins, outs = BB_TYPES[bbname]
     names = [n[0] for n in d["nodes"]]
@@ -69,7 +71,7 @@ def splice_bb(rng, d, inst, bbname):
             d["nodes"].append([f"{inst}.{p}", "bb_input", False, [p]])
     for p in outs:
         d["nodes"].append([f"{inst}.{p}", "bb_output", False, []])
-        if p != "q" and rng.random() < 0.6:
+        if p != "q" and rng.random() < p_unused:
             continue                      # a Q/QN flop whose QN is not used: an unloaded bb_output pin (still lint-clean)
         buf = q if p == "q" else f"{inst}_{p}buf"
         d["nodes"].append([buf, "buf", p != "q", [f"{inst}.{p}"]])
@@ -118,8 +120,24 @@ def gen_circuit(rng, fn, big):
                 others = [t for t in BB_TYPES if t != types[0]]
                 loose = [t for t in others if not (set(BB_TYPES[t][0]) <= set(BB_TYPES[types[0]][0]) or set(BB_TYPES[types[0]][0]) <= set(BB_TYPES[t][0]))]
                 types[1] = rng.choice(loose if loose and rng.random() < 0.7 else others)
+            if fn in IGNORE_PINS and rng.random() < 0.6:
+                types[rng.randrange(k)] = "ff2"       # a flop with a second output pin ...
             for i, t in enumerate(types):
-                d = splice_bb(rng, d, f"u{i}", t)
+                d = splice_bb(rng, d, f"u{i}", t, p_unused=0.25 if fn in IGNORE_PINS else 0.6)   # ... that mostly has a load
+    if fn == "tx.acyclic_unroll" and rng.random() < 0.65:
+        # cyclic arguments: a gate in its own fan-in (q = OR(s, q)) and/or a loop through two or more gates
+        gates = [n for n in d["nodes"] if n[1] in lib.MULTI and "." not in n[0]]
+        selfable = [n for n in gates if n[1] in ("and", "or", "nand", "nor")]
+        r = rng.random()
+        if selfable and r < 0.75:
+            for n in rng.sample(selfable, min(len(selfable), rng.randint(1, 2))):
+                n[3] = sorted(set(n[3]) | {n[0]})
+        if len(gates) >= 2 and (r >= 0.45 or not selfable):
+            order = [n[0] for n in d["nodes"]]
+            a, b = sorted(rng.sample(gates, 2), key=lambda n: order.index(n[0]))
+            a[3] = sorted(set(a[3]) | {b[0]})         # a later gate feeds an earlier one
+            if b[0] not in a[3] or a[0] not in b[3]:
+                b[3] = sorted(set(b[3]) | {a[0]})
     # escaped Verilog identifiers (leading backslash) for some non-pin nodes: the Verilog writer treats them specially
     if rng.random() < (0.6 if fn in ESCAPED else 0.12):
         plain = [n[0] for n in d["nodes"] if "." not in n[0]]
@@ -187,6 +205,9 @@ def gen_case(rng, fn, tier):
                 case["n"], case["flag"] = best, False
     if fn == "props.influence" and rng.random() < 0.5:
         case["k"] = 3                      # supergates=True: the path that goes through tx.supergates (which rejects blackboxes)
+    if fn in IGNORE_PINS:
+        # ignore_pins drawn from input pins, output pins, both; as str and as list
+        case["ignore"] = rng.choice(IGNORE_CHOICES if fn == "tx.strip_blackboxes" else [c for c in IGNORE_CHOICES if c not in (["q"], "q", ["d"])] + [["clk"]] * 2)
     if fn == "tx.miter":
         r = rng.random()
         case["second"] = "none" if r < 0.35 else "same" if r < 0.55 else "other"
@@ -214,7 +235,7 @@ def _call(cg, fn, c, case, others, tmp):
     if fn == "tx.strip_io": return tx.strip_io(c)
     if fn == "tx.strip_outputs": return tx.strip_outputs(c)
     if fn == "tx.strip_inputs": return tx.strip_inputs(c)
-    if fn == "tx.strip_blackboxes": return tx.strip_blackboxes(c, ignore_pins=["clk"] if flag else None)
+    if fn == "tx.strip_blackboxes": return tx.strip_blackboxes(c, ignore_pins=case.get("ignore", ["clk"] if flag else None))
     if fn == "tx.relabel": return tx.relabel(c, {x: f"r_{x}" for x in sub})
     if fn == "tx.subcircuit": return tx.subcircuit(c, sub, modify_io=flag)
     if fn == "tx.syn": return tx.syn(c, engine=["yosys", "genus", "dc"][k - 1], suppress_output=True, working_dir=tmp)
@@ -225,7 +246,7 @@ def _call(cg, fn, c, case, others, tmp):
         if case["second"] == "same": return tx.miter(c, c)
         return tx.miter(c, others[0])
     if fn == "tx.sequential_unroll":
-        return tx.sequential_unroll(c, k, "d", "q", ignore_pins=["clk"], add_flop_outputs=flag, remove_unloaded=not flag or k == 1,
+        return tx.sequential_unroll(c, k, "d", "q", ignore_pins=case.get("ignore", ["clk"]), add_flop_outputs=flag, remove_unloaded=not flag or k == 1,
                                     initial_values="0" if k == 2 else None)
     if fn == "tx.unroll":
         outs, ins = sorted(c.outputs() - c.inputs()), sorted(c.inputs() - c.outputs())
@@ -512,7 +533,7 @@ def finding_signature(case, obs):
 
 
 def mutate_case(rng, case):
-    return gen_case(rng, case["fn"], "thorough")
+    return gen_case(rng, (case or {}).get("fn") or rng.choice(SCOPE), "thorough")
 
 
 CLAIMED = True
